@@ -237,8 +237,19 @@ func VH_C11_mergeall() {
 		return
 	}
 	// what the fetch brought
-	scenario := rt.Choose(5)
+	scenario := rt.Choose(6)
 	switch scenario {
+	case 5: // remote ahead of a bug that is loaded here with a staged, uncommitted edit
+		lb, lerr := c.Bugs().Resolve(id0)
+		rt.Assert(lerr == nil, "bug-loaded-before-the-pull")
+		if lerr == nil {
+			_, _, serr := lb.AddComment("staged, not committed")
+			rt.Assert(serr == nil, "edit-staged-before-the-pull")
+		}
+		h := dag.VHStoreCommit(w.r, bug.VHFormatVersion, []repository.Hash{h0}, w.tick(), 0,
+			[]dag.Operation{bug.VHSetTitleOp(w.bob, vhOpId(103), "renamed-remotely", "t0")}, w.bob)
+		w.r.SetRef("refs/remotes/origin/bugs/"+id0.String(), h)
+		rt.Cover("fast-forward-over-staged-edit")
 	case 0: // a bug that only exists on the remote
 		id1, h1 := w.storeBug(1, w.bob, "t1", 1)
 		w.r.SetRef("refs/remotes/origin/bugs/"+id1.String(), h1)
@@ -336,7 +347,18 @@ func VH_C11_edit() {
 	for k := 0; k < n; k++ {
 		switch rt.Choose(5) {
 		case 4:
-			_, err = b.SetMetadata(b.Snapshot().Operations[0].Id(), map[string]string{"k": fmt.Sprintf("v%d", k)})
+			target := b.Snapshot().Operations[0]
+			want, had := target.AllMetadata()["k"]
+			if !had {
+				want = fmt.Sprintf("v%d", k)
+			}
+			_, err = b.SetMetadata(target.Id(), map[string]string{"k": fmt.Sprintf("v%d", k)})
+			// the snapshot maintained incrementally shows what a compilation from scratch
+			// would: the key is there, and a key that existed keeps its value. Looked at
+			// before anything recompiles the bug (a rebuild shares the operation objects
+			// of M-PACK and would repair the live snapshot).
+			got, has := b.Snapshot().Operations[0].AllMetadata()["k"]
+			rt.Assert(err != nil || (has && got == want), "set-metadata-visible-in-the-live-snapshot")
 			rt.Cover("set-metadata")
 		case 0:
 			_, _, err = b.AddComment("c")
